@@ -184,7 +184,71 @@ pub fn check(c: &Case, obs: &mut Obs) -> Result<(), Fail> {
     Ok(())
 }
 
+/// The same oracle for an arbitrary build case (any payload content, any option combination): used by the
+/// content-generating part and by the libFuzzer target. Mode and level in effect come from the reference
+/// classifier / the documented default.
+pub fn check_bc(bc: &BuildCase, obs: &mut Obs) -> Result<(), Fail> {
+    let mode = bc.effective_mode();
+    let level = bc.effective_level();
+    let len = bc.input.len();
+    let min = min_version(level, mode, len);
+    let expect: Result<usize, BuildErr> = match (min, bc.opts.version) {
+        (None, _) => Err(BuildErr::TooBig),
+        (Some(m), None) => Ok(m),
+        (Some(m), Some(f)) if f >= m => Ok(f),
+        (Some(_), Some(_)) => Err(BuildErr::VersionTooSmall),
+    };
+    let got = build(bc).map_err(|p| Fail { sig: panic_sig(&p), msg: format!("panic: {} (expected {:?}; {:?})", p, expect, bc) })?;
+    let near = (1..=40).any(|v| {
+        let cap = capacity(v, level, mode);
+        len + 1 >= cap && len <= cap + 1
+    });
+    match (&got, &expect) {
+        (Ok(b), Ok(v)) => {
+            let gv = b.qr.version.map(version_no);
+            let sv = version_from_size(b.size());
+            if gv != Some(*v) || sv != Some(*v) {
+                let sig = if bc.opts.version.is_some() { "forced_version_not_used" } else if sv.unwrap_or(0) > *v { "version_wasted" } else { "version_too_small" };
+                return fail(sig, format!("version {:?} (size {}) used, expected {} for {} chars {} {} ({:?})", gv, b.size(), v, len, mode.name(), level.name(), bc));
+            }
+            obs.label(if bc.opts.version.is_some() { "content:ok_forced" } else { "content:ok_auto" });
+            if len + 1 >= capacity(*v, level, mode) {
+                let vals = b.values();
+                let d = decode_plain(&vals, b.size());
+                let ok = d.as_ref().map(|d| d.parsed.segments.len() == 1 && d.parsed.segments[0].bytes == bc.input).unwrap_or(false);
+                ensure!(ok, "overflow_at_capacity", "at capacity of v{}: symbol does not decode back to the input ({:?}; {:?})", v, d.err(), bc);
+            }
+        }
+        (Err(g), Err(x)) if g == x => {
+            obs.label(&format!("content:err:{:?}", g));
+        }
+        _ => {
+            let gs = match &got {
+                Ok(b) => format!("Ok(version {:?})", b.qr.version.map(version_no)),
+                Err(e) => format!("Err({:?})", e),
+            };
+            let sig = match (&got, &expect) {
+                (Ok(_), Err(BuildErr::TooBig)) => "accepted_over_capacity",
+                (Ok(_), Err(BuildErr::VersionTooSmall)) => "accepted_too_small_forced_version",
+                (Err(BuildErr::TooBig), Ok(_)) => "rejected_fitting_input",
+                (Err(BuildErr::VersionTooSmall), Ok(_)) => "rejected_sufficient_forced_version",
+                _ => "wrong_error_variant",
+            };
+            return fail(sig, format!("got {}, expected {:?} (minimal version {:?}; {:?})", gs, expect, min, bc));
+        }
+    }
+    if near || expect.is_err() {
+        obs.nontrivial(bc.hash());
+    }
+    obs.sample(&format!("content|{}|{}", mode.name(), if expect.is_ok() { "ok" } else { "err" }), || bc.to_sample());
+    Ok(())
+}
+
 pub fn replay(_e: &Engine, case: &Value, obs: &mut Obs) -> Result<(), Fail> {
+    if case.get("input_hex").is_some() {
+        let bc = BuildCase::from_json(case).ok_or_else(|| Fail { sig: "bad_replay".into(), msg: "cannot parse case".into() })?;
+        return check_bc(&bc, obs);
+    }
     let c = from_json(case).ok_or_else(|| Fail { sig: "bad_replay".into(), msg: "cannot parse case".into() })?;
     check(&c, obs)
 }
